@@ -21,7 +21,11 @@ type NestCase struct {
 	D             int    // second recursive call uses n - D (0: the literal has one expression only)
 	Depth         int    // nest(Depth) is evaluated
 	Loop          int    // additionally the literal "A{{i}}B{{i * 2}}C" is evaluated for i = 1..Loop
+	Bad           int    `json:"bad,omitempty"` // > 0: the loop literal ends in a third expression, badCodes[Bad], which does not validate / parse / evaluate: an inline marker (any text) must appear, every time
 }
+
+// code which parses but does not validate, does not parse, or fails when evaluated
+var badCodes = []string{"", " {1} ", " {a} ", "1 := 2", "[1, 2] := 3", "1 +", "1 + [2]", "for a.b in [[]] { }"}
 
 // no braces here: marker arithmetic is the business of the piece enumeration, this scenario is about overlapping evaluations
 var nestTexts = []string{"", "(", ")", "<", ">", "a", "bc", " ", ".", "|", "[[", "]]", "x=", "#", "\\u00e9"}
@@ -29,7 +33,8 @@ var nestTexts = []string{"", "(", ")", "<", ">", "a", "bc", " ", ".", "|", "[[",
 func drawNest(rt *rapid.T) *NestCase {
 	t := func(l string) string { return rapid.SampledFrom(nestTexts).Draw(rt, l) }
 	return &NestCase{A: t("a"), B: t("b"), C: t("c"), Leaf: rapid.SampledFrom([]string{".", "leaf", "", "0"}).Draw(rt, "leaf"),
-		D: rapid.IntRange(0, 2).Draw(rt, "d"), Depth: rapid.IntRange(1, 4).Draw(rt, "depth"), Loop: rapid.IntRange(0, 4).Draw(rt, "loop")}
+		D: rapid.IntRange(0, 2).Draw(rt, "d"), Depth: rapid.IntRange(1, 4).Draw(rt, "depth"), Loop: rapid.IntRange(0, 4).Draw(rt, "loop"),
+		Bad: rapid.IntRange(0, len(badCodes)-1).Draw(rt, "bad")}
 }
 
 func (n NestCase) expect(k int) string {
@@ -55,11 +60,18 @@ func runNest(n NestCase) *hx.Failure {
 	fmt.Fprintf(&b, "func nest(n) {\n    if n <= 0 {\n        return \"%s\"\n    }\n    return \"%s{{nest(n - 1)}}%s%s%s\"\n}\n", q(n.Leaf), q(n.A), q(n.B), second, q(n.C))
 	fmt.Fprintf(&b, "t.rec(nest(%d))\n", n.Depth)
 	if n.Loop > 0 {
-		fmt.Fprintf(&b, "for i in range(1, %d) {\n    t.rec(\"%s{{i}}%s{{i * 2}}%s\")\n}\n", n.Loop, q(n.A), q(n.B), q(n.C))
+		bad := ""
+		if n.Bad > 0 && n.Bad < len(badCodes) {
+			bad = "{{" + badCodes[n.Bad] + "}}"
+		}
+		fmt.Fprintf(&b, "for i in range(1, %d) {\n    t.rec(\"%s{{i}}%s{{i * 2}}%s%s\")\n}\n", n.Loop, q(n.A), q(n.B), q(n.C), bad)
 	}
 	src := b.String()
 	key := "nest:" + src
 	hx.E.Case(true, key, "nest", fmt.Sprintf("nest.depth.%d", n.Depth))
+	if n.Loop > 0 && n.Bad > 0 {
+		hx.E.Class(fmt.Sprintf("nest.loop-literal-with-bad-code.%d", n.Bad), 1)
+	}
 	hx.E.Sample(key, map[string]interface{}{"nest_program": src})
 	res := erun.Run(src, erun.Options{})
 	if res.Panic != nil {
@@ -76,6 +88,13 @@ func runNest(n NestCase) *hx.Failure {
 		return hx.Failf("nest:observations", "got %d observations, expected %d\n%s", len(res.Trace), len(want), src)
 	}
 	for i, w := range want {
+		if i > 0 && n.Bad > 0 && n.Bad < len(badCodes) {
+			// the text of the inline marker is not specified: the part before it is
+			if got, ok := res.Trace[i].(string); !ok || !strings.HasPrefix(got, w) || got == w {
+				return hx.Failf("nest:output-mismatch", "evaluation %d of the literal yields %q; expected %q followed by an inline error marker for the code %q\n%s", i, res.Trace[i], w, badCodes[n.Bad], src)
+			}
+			continue
+		}
 		if res.Trace[i] != w {
 			return hx.Failf("nest:output-mismatch", "evaluation %d of the literal yields %q; replacing its own expressions left to right gives %q\n%s", i, res.Trace[i], w, src)
 		}
